@@ -255,10 +255,29 @@ def ev_gw_series(info, out):
     return []
 
 
+def ev_fco2(info, out):
+    """C17: the CO2 productivity factor is 1 at the reference concentration and non-decreasing in concentration, hence
+    >= 1 above the reference and <= 1 below it"""
+    try:
+        f = unhx(out[0] if out[0] != "S" else out[1])
+    except Exception:
+        return []
+    conc, ref = info.get("conc"), info.get("ref")
+    if conc is None or ref is None or not (250 <= conc <= 2500):
+        return []
+    if conc == ref and f != 1.0:
+        return [V("C17", "fco2", "one_at_reference", "fCO2 = %.9g at the reference concentration %.3f ppm (crop %s)" % (f, ref, info.get("crop")))]
+    if conc > ref and f < 1.0 - 1e-12:
+        return [V("C17", "fco2", "monotone", "fCO2 = %.9g < 1 at %.3f ppm, above the reference %.3f ppm where it is 1 (crop %s): not non-decreasing" % (f, conc, ref, info.get("crop")))]
+    if conc < ref and f > 1.0 + 1e-12:
+        return [V("C17", "fco2", "monotone", "fCO2 = %.9g > 1 at %.3f ppm, below the reference %.3f ppm where it is 1 (crop %s): not non-decreasing" % (f, conc, ref, info.get("crop")))]
+    return []
+
+
 EVAL = {
     "infiltration": ev_infiltration, "drainage": ev_drainage, "groundwater_inflow": ev_gw_inflow,
     "check_groundwater_table": ev_check_gw, "capillary_rise": ev_capillary, "rainfall_partition": ev_rainfall_partition,
-    "growing_degree_day": ev_gdd, "schedule": ev_schedule, "gw": ev_gw_series,
+    "growing_degree_day": ev_gdd, "schedule": ev_schedule, "gw": ev_gw_series, "fco2": ev_fco2,
 }
 
 
@@ -268,7 +287,7 @@ def evaluate(pid, suites, limit=400):
     for s in suites:
         for m in s.get("mismatches_all", s.get("mismatches", []))[:limit]:
             fn = m.get("fn"); info = m.get("info"); impl = m.get("impl")
-            if fn not in EVAL or not isinstance(info, dict) or not impl or impl[0] != "S" or m.get("kind") == "malformed":
+            if fn not in EVAL or not isinstance(info, dict) or not impl or (impl[0] != "S" and fn != "fco2") or m.get("kind") == "malformed":
                 continue
             looked += 1; by_fn[fn] = by_fn.get(fn, 0) + 1
             try:
@@ -379,6 +398,10 @@ def rerun(fn, info):
             gw.dates, gw.values = list(info["dates"]), list(info["values"])
         m = I.make_model(s0, e0, I.good_weather(s0, e0), groundwater=gw); m._initialize()
         return ["S"] + tl(np.asarray(m._param_struct.z_gw, dtype=float)).split()
+    if fn == "fco2":
+        from suites import fco2 as F
+        r = F._job((info["crop"], info["conc"], "champion_climate.txt", "1985/05/01", "1986/12/30", info["ref"]))
+        return [hx(r["fCO2"])] if r.get("ok") else ["N"]
     raise KeyError(fn)
 
 
